@@ -16,6 +16,11 @@
 #include <memory>
 #include <sstream>
 #include <vector>
+#ifdef CB_VERIF
+#include "../backend/interpreter/evaluator/functions/generic_instantiation.h"
+#include <map>
+#include <set>
+#endif
 
 using namespace RecursiveParserNS;
 
@@ -23,7 +28,98 @@ using namespace RecursiveParserNS;
 const char *current_filename = nullptr;
 std::vector<std::string> file_lines;
 
+#ifdef CB_VERIF
+// verification hook: with CB_VERIF_SUBST set, main reads lines
+//   <type string> TAB <generic enum names separated by ';'> { TAB <key> TAB <value> }
+// (fields escaped: \\ \n \t \r) from standard input and prints, for each, what
+// substitute_type_string makes of the type string, escaped the same way
+static std::string verif_unescape(const std::string &s) {
+    std::string out;
+    for (size_t i = 0; i < s.size(); ++i) {
+        if (s[i] == '\\' && i + 1 < s.size() &&
+            (s[i + 1] == 'n' || s[i + 1] == 't' || s[i + 1] == 'r' ||
+             s[i + 1] == '\\')) {
+            char c = s[++i];
+            out += c == 'n' ? '\n' : c == 't' ? '\t' : c == 'r' ? '\r' : '\\';
+        } else {
+            out += s[i];
+        }
+    }
+    return out;
+}
+
+static std::string verif_escape(const std::string &s) {
+    std::string out;
+    for (char c : s) {
+        if (c == '\n')
+            out += "\\n";
+        else if (c == '\t')
+            out += "\\t";
+        else if (c == '\r')
+            out += "\\r";
+        else if (c == '\\')
+            out += "\\\\";
+        else
+            out += c;
+    }
+    return out;
+}
+
+static int verif_subst_main() {
+    std::string line;
+    while (std::getline(std::cin, line)) {
+        std::vector<std::string> fields;
+        size_t start = 0;
+        while (true) {
+            size_t tab = line.find('\t', start);
+            fields.push_back(verif_unescape(
+                line.substr(start, tab == std::string::npos ? std::string::npos
+                                                            : tab - start)));
+            if (tab == std::string::npos)
+                break;
+            start = tab + 1;
+        }
+        if (fields.size() < 2 || fields.size() % 2 != 0) {
+            std::cout << "bad-op" << std::endl;
+            continue;
+        }
+        std::set<std::string> enums;
+        {
+            size_t b = 0;
+            const std::string &e = fields[1];
+            while (b <= e.size()) {
+                size_t semi = e.find(';', b);
+                std::string name = e.substr(
+                    b, semi == std::string::npos ? std::string::npos : semi - b);
+                if (!name.empty())
+                    enums.insert(name);
+                if (semi == std::string::npos)
+                    break;
+                b = semi + 1;
+            }
+        }
+        std::map<std::string, std::string> type_map;
+        for (size_t i = 2; i + 1 < fields.size(); i += 2) {
+            type_map.emplace(fields[i], fields[i + 1]);
+        }
+        std::cout << verif_escape(
+                         GenericInstantiation::verif_substitute_type_string(
+                             fields[0], type_map,
+                             [&enums](const std::string &n) {
+                                 return enums.count(n) > 0;
+                             }))
+                  << std::endl;
+    }
+    return 0;
+}
+#endif
+
 int main(int argc, char **argv) {
+#ifdef CB_VERIF
+    if (std::getenv("CB_VERIF_SUBST")) {
+        return verif_subst_main();
+    }
+#endif
     if (argc < 2) {
         std::cerr << "使用法: " << argv[0]
                   << " <ファイル名> [-d|--debug] [--debug-ja]" << std::endl;
